@@ -46,7 +46,8 @@
 #  define V_IN_INIT(type, name) { type v_tmp_##name; vin_##name = v_tmp_##name; }
 #  define V_INVALID_PTR(T)     ((T)v_invalid_ptr())
 /* a non-NULL pointer that must never be dereferenced: a released object (any access fails pointer-check) */
-static inline void *v_invalid_ptr(void) { void *p = malloc(1); __CPROVER_assume(p != NULL); free(p); return p; }
+static void *v_invalid_obj;
+static inline void *v_invalid_ptr(void) { if (!v_invalid_obj) { v_invalid_obj = malloc(1); __CPROVER_assume(v_invalid_obj != NULL); free(v_invalid_obj); } return v_invalid_obj; }
 #else
 /* ---- native ---------------------------------------------------------------------------------- */
 #  include <stdio.h>
